@@ -71,6 +71,9 @@ fn tr_request(k: K, full: &Input, cut: usize, cut_inp: &Input, cap: Option<usize
 }
 
 /// the same exclusions as suite c12 (inputs whose canonical view the model does not try to reproduce)
+/// inputs above this size are judged by the oracle only (their request lines would be 100 kB each)
+const LARGE_INPUT: usize = 16_384;
+
 fn corr_excluded(ctx: &mut Ctx, k: K, cut_inp: &Input, got: &str) -> bool {
     if k == K::Fasta && !m::wf_fasta(&cut_inp.data) {
         ctx.bump("tr_corr_skipped:fasta-records-malformed");
@@ -322,7 +325,9 @@ fn tr_case(ctx: &mut Ctx, k: K, full: &Input, sub: u64, only: Option<usize>, lab
         } else if got.starts_with("panic") {
             ctx.fail(&format!("panic:{}", k.class()), format!("{}: the reader panicked on the first {cut} of {} bytes of a damaged input: {:.200}", k.name(), full.model.len(), got), case.clone());
         }
-        if only.is_none() && !corr_excluded(ctx, k, &ci, &got) {
+        if full.model.len() > LARGE_INPUT {
+            ctx.bump("tr_corr_skipped:large-input-oracle-only");
+        } else if only.is_none() && !corr_excluded(ctx, k, &ci, &got) {
             let req = tr_request(k, full, cut, &ci, cap);
             ctx.sample(|| if req.len() < 380 { req.clone() } else { String::new() });
             ctx.corr(req, got);
@@ -457,6 +462,22 @@ fn tr_corpus() -> Vec<(K, Input)> {
     v.push(t(K::VcfRec, "\u{e9}\t2\t3\t4\t5\t6\t7\t8\n\u{e9}\t2\t3\t4\t5\t6\t7\t8\n".as_bytes()));
     v.push(t(K::Gff, b"a\n \n\nbc\n"));
     v.push(t(K::Fasta, b">a\nACGT\n>b\nGG\n"));
+    // BCF: a record whose sample block is longer than 64 KiB, then a small one (a reader that fills a
+    // length-prefixed block in two stages has to check the second stage too); the oracle alone runs here
+    {
+        let mut site = vec![0u8; 24];
+        site[18] = 1;
+        site.extend_from_slice(&[0x07, 0x17, b'A', 0x00]);
+        let big = |n: usize| -> Vec<u8> {
+            let mut r = (site.len() as u32).to_le_bytes().to_vec();
+            r.extend_from_slice(&(n as u32).to_le_bytes());
+            r.extend_from_slice(&site);
+            r.extend((0..n).map(|i| (i % 251) as u8));
+            r
+        };
+        v.push(t(K::Bcf, &[big(70_001), big(3)].concat()));
+        v.push(t(K::Bcf, &[big(2), big(65_537)].concat()));
+    }
     v
 }
 
